@@ -28,6 +28,7 @@ pub fn run(ctx: &mut Ctx) {
     if part.is_empty() || part == "sink" { failing_sinks(ctx); }
     if !cfg!(miri) && (part.is_empty() || part == "maps") { truncated_maps(ctx); }
     if !cfg!(miri) && (part.is_empty() || part == "writers") { limited_writers(ctx); }
+    if !cfg!(miri) && (part.is_empty() || part == "files") { failing_files(ctx); }
 }
 
 pub struct Inst {
@@ -35,6 +36,7 @@ pub struct Inst {
     pub bytes: Vec<u8>,
     pub load: Box<dyn Fn(&mut dyn Read) -> io::Result<()>>,
     pub ser: Box<dyn Fn(&mut dyn Write) -> io::Result<()>>,
+    pub to_file: Box<dyn Fn(&str) -> io::Result<()>>,
 }
 
 pub fn inst<T: Serialize + 'static>(name: &str, x: T) -> Inst {
@@ -42,11 +44,13 @@ pub fn inst<T: Serialize + 'static>(name: &str, x: T) -> Inst {
     x.serialize(&mut bytes).unwrap();
     let x = std::rc::Rc::new(x);
     let y = x.clone();
+    let z = x.clone();
     Inst {
         name: name.to_string(),
         bytes,
         load: Box::new(move |r: &mut dyn Read| { let mut r = r; T::load(&mut r).map(|_| ()) }),
         ser: Box::new(move |w: &mut dyn Write| { let mut w = w; y.serialize(&mut w) }),
+        to_file: Box::new(move |path: &str| serialize::serialize_to(&*z, path)),
     }
 }
 
@@ -330,6 +334,24 @@ fn pattern(i: usize) -> u64 { (i as u64 + 1).wrapping_mul(0x9E37_79B9_7F4A_7C15)
 pub fn child(kv: &BTreeMap<String, String>) -> ! {
     let get = |k: &str| kv.get(k).cloned().unwrap_or_default();
     let kind = get("kind");
+    if kind == "serialize_to" {
+        // serialize_to(<instance k of the deterministic list>, file) under RLIMIT_FSIZE.
+        let k: usize = get("k").parse().unwrap();
+        let seed: u64 = get("seed").parse().unwrap();
+        let limit: u64 = get("limit").parse().unwrap();
+        let file = get("file");
+        let mut rng = Rng::new(seed);
+        let list = file_instances(&mut rng);
+        unsafe {
+            libc::signal(libc::SIGXFSZ, libc::SIG_IGN);
+            let lim = libc::rlimit { rlim_cur: limit as libc::rlim_t, rlim_max: limit as libc::rlim_t };
+            if libc::setrlimit(libc::RLIMIT_FSIZE, &lim) != 0 { println!("OUTCOME harness_error setrlimit"); std::process::exit(3); }
+        }
+        crate::util::install_panic_hook();
+        let r = guard(|| (list[k].to_file)(&file));
+        println!("OUTCOME {}", match r { Ok(Ok(())) => "ok", Ok(Err(_)) => "err", Err(_) => "panic" });
+        std::process::exit(0);
+    }
     let width: usize = get("width").parse().unwrap();
     let buf: usize = get("buf").parse().unwrap();
     let count: usize = get("count").parse().unwrap();
@@ -417,4 +439,69 @@ fn limited_writers(ctx: &mut Ctx) {
     for (k, v) in outcomes { ctx.count(&format!("writers.outcome.{}", k), v); }
     ctx.count("fault_points.writers", points);
     let _ = (BitVector::from(RawVector::new()).supports_rank(), 0);
+}
+
+// The instances used for failing files: the standard list plus one that is larger than any write buffer.
+pub fn file_instances(rng: &mut Rng) -> Vec<Inst> {
+    let mut v = instances(rng, true);
+    let bits: Vec<bool> = (0..300_000).map(|i| (i * 7 + 3) % 11 < 4).collect();
+    let mut bv = mk::bv_set_bit(&bits);
+    bv.enable_rank(); bv.enable_select(); bv.enable_select_zero();
+    v.push(inst("BitVector/300k bits, all supports", bv));
+    v.push(inst("Vec<u64>/20k", (0..20_000u64).collect::<Vec<u64>>()));
+    v
+}
+
+// serialize_to() onto files that cannot take the data: /dev/full, and every interesting RLIMIT_FSIZE in a child process.
+fn failing_files(ctx: &mut Ctx) {
+    let seed = ctx.seed ^ 0xC14_F;
+    let mut rng = Rng::new(seed);
+    let list = file_instances(&mut rng);
+    let exe = match std::env::current_exe() { Ok(e) => e, Err(e) => { ctx.inconclusive(format!("current_exe: {}", e)); return; } };
+    let have_dev_full = std::path::Path::new("/dev/full").exists();
+    let mut points = 0u64;
+    for (k, it) in list.iter().enumerate() {
+        if !ctx.mine(k as u64) { continue; }
+        if !ctx.begin_case() { continue; }
+        let size = it.bytes.len();
+        if have_dev_full {
+            points += 1;
+            ctx.checks += 1;
+            match guard(|| (it.to_file)("/dev/full")) {
+                Ok(Err(_)) => {},
+                Ok(Ok(())) => ctx.violation(&format!("serialize_to.dev_full.accepted.{}", it.name), format!("serialize_to({}, /dev/full) returned Ok although no byte can be written ({} bytes)", it.name, size)),
+                Err(p) => ctx.violation("serialize_to.dev_full!panic", format!("serialize_to({}, /dev/full) panicked: {}", it.name, p)),
+            }
+        }
+        let mut limits: Vec<usize> = vec![0, 8, size / 2, size.saturating_sub(4096), size.saturating_sub(64), size.saturating_sub(8), size.saturating_sub(1), size, size + 8];
+        let mut l = 0; while l < std::cmp::min(size, 400) { limits.push(l); l += 8; }
+        let mut l = size.saturating_sub(9000); while l < size { limits.push(l); l += 1000; }
+        limits.sort_unstable(); limits.dedup();
+        let file = format!("{}/vmon-c14f-{}-{}-{}", ctx.tmpdir, std::process::id(), ctx.shard, k);
+        for &limit in limits.iter() {
+            points += 1;
+            ctx.checks += 1;
+            let _ = std::fs::remove_file(&file);
+            let out = std::process::Command::new(&exe).args(["c14child", "kind=serialize_to", &format!("k={}", k), &format!("seed={}", seed), &format!("limit={}", limit), &format!("file={}", file)]).output();
+            match out {
+                Err(e) => { ctx.inconclusive(format!("could not spawn the child: {}", e)); break; },
+                Ok(o) => {
+                    let text = String::from_utf8_lossy(&o.stdout).to_string();
+                    let outcome = text.lines().find(|l| l.starts_with("OUTCOME ")).map(|l| l[8..].to_string()).unwrap_or_else(|| format!("no_outcome(status {:?})", o.status.code()));
+                    ctx.count(&format!("files.outcome.{}", outcome.split_whitespace().next().unwrap_or("?")), 1);
+                    let on_disk = std::fs::read(&file).unwrap_or_default();
+                    match outcome.as_str() {
+                        "ok" => { if on_disk != it.bytes { ctx.violation(&format!("serialize_to.limit.reported_success.{}", it.name), format!("serialize_to({}, file) under RLIMIT_FSIZE {} returned Ok but the file has {} of {} bytes", it.name, limit, on_disk.len(), size)); } },
+                        "err" => { if limit >= size { ctx.violation("serialize_to.limit.spurious_failure", format!("serialize_to({}) failed although the limit {} allows all {} bytes", it.name, limit, size)); } },
+                        "panic" => ctx.violation("serialize_to.limit!panic", format!("serialize_to({}) panicked under RLIMIT_FSIZE {}", it.name, limit)),
+                        _ => ctx.inconclusive(format!("serialize_to child: {}", outcome)),
+                    }
+                },
+            }
+        }
+        let _ = std::fs::remove_file(&file);
+        ctx.case(hash64(&[6, hash_bytes(it.name.as_bytes()), size as u64]), true);
+        ctx.sample(|| format!("files: serialize_to({}, {} bytes) onto /dev/full and under {} RLIMIT_FSIZE values in child processes", it.name, size, limits.len()));
+    }
+    ctx.count("fault_points.files", points);
 }
